@@ -92,6 +92,11 @@ def body_chain(ctx, case):
         data = q.out
         if q.rc != 0:
             break
+        # the statement is about *lossless* intermediate formats: an error value prints as the bare token (error), which is not JSON, and a
+        # record without fields has no CSV/TSV representation (it is written as an empty header line and read back as one empty field)
+        if k < len(chain) - 1 and ((fmt == "json" and b"(error)" in data) or (fmt in ("csv", "tsv", "csvlite") and (data.startswith(b"\n") or b"\n\n\n" in data))):
+            ctx.excluded["intermediate document is not lossless (error value in JSON / empty record in CSV)"] += 1
+            return
     changing = sum(1 for v in chain if v != ["cat"])
     ctx.case(case, changing >= 2 and len(recs) >= 2, labels=("pipe-" + fmt, "wide" if any(len(r) >= 12 for r in recs) else "narrow"),
              sample={"chain": chain, "fmt": fmt, "nrec": len(recs)} if changing >= 2 else None)
